@@ -24,6 +24,11 @@ class Wool(core.Component):
         self.w = w
 
 
+class Rare(core.Component):
+    """Carried by very few agents of a large population (sparse template)."""
+    __slots__ = []
+
+
 class _Sys(core.System):
     def call(self, fn, *a, **kw):
         return self.model.call(fn, *a, **kw)
@@ -92,6 +97,9 @@ class Picks(_Sys):
         m.trace.append('sh2:' + ','.join(a.id for a in self.call(env.shuffle, Wool, tag=0)))
         m.trace.append('sh3:' + ','.join(a.id for a in self.call(env.shuffle, Energy, tag=2)))
         m.trace.append('ls:' + ','.join(a.id for a in self.call(env.get_agents, Energy, tag=1)))
+        if m.cfg.get('rare'):
+            rare = [self.call(env.get_random_agent, Rare) for _ in range(6)] + [self.call(env.get_random_agent, Rare, tag=m.random.randint(0, 2))]
+            m.trace.append('rare:' + ','.join(a.id if a is not None else '-' for a in rare))
         m.trace.append('all:' + ','.join(a.id for a in self.call(env.get_agents)))
 
 
@@ -170,6 +178,8 @@ class TraceModel(core.Model):
         a.add_component(Energy(a, self, r.randint(0, 50)))
         if r.random() < 0.5:
             a.add_component(Wool(a, self, r.random()))
+        if r.random() < self.cfg.get('rare', 0.0):
+            a.add_component(Rare(a, self))
         env = self.environment
         if self.cfg['world'] == 'grid':
             self.call(env.add_agent, a, r.randint(0, self.cfg['w'] - 1), r.randint(0, self.cfg['h'] - 1))
